@@ -19,7 +19,9 @@ part with the field for EQUALITY.  computeAggCount is unchanged: it never looks 
 (known finding count-without-empty-list; the repo's Test_GetResults_AggFn_Count and the OTSDB query
 parser, which sets Without on every query, rely on it).
 Sample values are integers (the correspondence run uses integer-valued float64 with |sums| < 2^53, so the
-Go float arithmetic is exact); `avg` is the exact quotient, `f64div` is the correctly rounded float64
+Go float arithmetic is exact; with the repair c09-2 reduceEntries / reduceRunningEntries start their running sum
+from the first value instead of +0 — the same integer sum, the sign of a zero sum is outside this model and is
+checked end to end by e2e_metrics); `avg` is the exact quotient, `f64div` is the correctly rounded float64
 quotient the Oracle prints for it.  Core Lean only.
 
 NOT modelled: tags-tree lookup, PromQL parser, range/math/label functions, topk/bottomk/stddev/stdvar/
